@@ -76,6 +76,19 @@ chk("C16", "fault_enumeration",
     "fault model = transient error with k < len bytes accepted on one write call; trusts refcar, lab.Model, the memfile and (up to the completeness check) the verif hook",
     "runtime monitoring: enumerated write-fault injection with acked-set bookkeeping and reference decode of the final bytes", "DESIGN.md §6 C16")
 
+chk("C06", "fault_enumeration",
+    "Runtime crash-point enumeration: the ordered mutation trace (with call/ack markers) of seeded sessions (open, 1-5 puts, Finalize) x 8 option configurations x {blockstore traced through the verif hooks, storage on a tracing memfile} x {fresh file, resumed discarded file, resumed finalized file} is cut at EVERY event boundary and within every write at torn lengths {1, mid, len-1} (every byte in the thorough tier and in 1 of 8 quick cases); every crash image is reopened with the same roots/options and judged by acked-set bookkeeping: on error all acknowledged sections must remain intact in the file left behind; on success all acknowledged blocks are present with exact bytes, nothing never put is listed, in-flight blocks if present are intact, and after two more puts + Finalize the archive decodes strictly, verifies, holds all acknowledged + new blocks and nothing unknown, with exact index and header.",
+    "crash model = prefix of the issued writes with the last write torn (no reordering); traces are checked for completeness against the final file; trusts refcar and the memfile/hook adapter",
+    "runtime monitoring: exhaustive crash-image enumeration over the recorded write trace with acked-set oracle and reference decode", "DESIGN.md §6 C06")
+chk("C17", "exploration",
+    "Runtime monitor on the built car binary: 27 classes of hostile UnixFS DAGs (dot-dot / absolute / empty / long / unicode names, separators, symlinks with escaping targets, same-name symlink-then-file/dir in one directory, in HAMT shards and across roots, several roots, missing blocks, malformed nodes) x 2 output-directory states x up to 5 invocation modes (-f, stdin, relative/symlinked output dir, -p); oracle = recursive snapshot (names, types, sizes, sha256, link targets, modes) of a padded sandbox parent excluding out/ before vs after; any difference is a violation. Coverage guards require that most DAGs really got extracted.",
+    "absolute names/targets only point inside the sandbox; a wall-clock watchdog on a child is inconclusive",
+    "runtime monitoring: filesystem snapshot-equality oracle around black-box executions on adversarial inputs", "DESIGN.md §6 C17")
+chk("C18", "exploration",
+    "Runtime monitor on the built car binary: seeded file trees in 10 profiles (empty files, chunk boundaries, deep nesting, many siblings, odd/unicode names, symlinks incl. dangling/absolute/chains, empty dirs, duplicates, sharded directory; a >174-chunk file in thorough) x 6 create forms (wrap v1/v2, no-wrap v1/v2, several sources, '.') then extraction with -f, stdin pipe and stdin redirect; oracle = tree equality (names, contents, link targets), exactly one header root (reference-decoded) equal to `car root` output and present as a block, source tree untouched.",
+    "modes/mtimes are not part of the property; refcar decodes the header",
+    "runtime monitoring: round-trip tree-equality oracle over black-box executions", "DESIGN.md §6 C18")
+
 NOT_YET = {}
 
 def main():
